@@ -9,8 +9,10 @@
 
   -- API:
   --   Cx.Spec.Kdf.hkdfExtract (H) (B : Nat) (salt ikm : Bytes) : Bytes                      PRK = HMAC-Hash(salt, IKM)
-  --   Cx.Spec.Kdf.hkdfExpand  (H) (B hashLen : Nat) (prk info : Bytes) (L : Nat) : Option Bytes   `none` ⇔ L > 255·HashLen
+  --   Cx.Spec.Kdf.hkdfExpand  (H) (B hashLen : Nat) (prk info : Bytes) (L : Nat) : Option Bytes
+  --                                      `none` ⇔ |PRK| < HashLen ∨ L > 255·HashLen   (the two input constraints of §2.3)
   --   Cx.Spec.Kdf.hkdfExpandPrf (prf) (hashLen) (prk info) (L)                               the same for an arbitrary PRF
+  --   Cx.Spec.Kdf.hkdfOkm (prf) (hashLen) (prk info) (L) : Bytes                             the value: first L octets of T(1) | T(2) | …
   --   Cx.Spec.Kdf.pbkdf2 (prf : Bytes → Bytes → Bytes) (hLen : Nat) (P S : Bytes) (c dkLen : Nat) : Option Bytes
   --                                      `none` ⇔ c = 0 ∨ dkLen > (2^32 − 1)·hLen  ("derived key too long")
   --   Cx.Spec.Kdf.pbkdf2Hmac (H) (B hLen) (P S) (c dkLen)                                    PBKDF2 with PRF = HMAC-H
@@ -42,11 +44,16 @@ def hkdfTs (prf : Bytes → Bytes) (info : Bytes) : Nat → Nat → Bytes → Li
 /-- ⌈a / b⌉ -/
 def ceilDiv (a b : Nat) : Nat := (a + b - 1) / b
 
-/-- §2.3  "L  length of output keying material in octets (<= 255*HashLen)";  N = ceil(L/HashLen);
-    T = T(1) | T(2) | … | T(N), T(0) = empty;  OKM = first L octets of T -/
+/-- §2.3  N = ceil(L/HashLen);  T = T(1) | T(2) | … | T(N), T(0) = empty;  OKM = first L octets of T -/
+def hkdfOkm (prf : Bytes → Bytes → Bytes) (hashLen : Nat) (prk info : Bytes) (L : Nat) : Bytes :=
+  ((hkdfTs (prf prk) info (ceilDiv L hashLen) 1 []).flatten).take L
+
+/-- §2.3  Inputs: "PRK  a pseudorandom key of at least HashLen octets (usually, the output from the extract step)";
+    "L  length of output keying material in octets (<= 255*HashLen)".  Outside these two constraints the function is
+    not defined (`none`); inside, OKM = `hkdfOkm`. -/
 def hkdfExpandPrf (prf : Bytes → Bytes → Bytes) (hashLen : Nat) (prk info : Bytes) (L : Nat) : Option Bytes :=
-  if L ≤ 255 * hashLen then
-    some (((hkdfTs (prf prk) info (ceilDiv L hashLen) 1 []).flatten).take L)
+  if prk.length < hashLen then none
+  else if L ≤ 255 * hashLen then some (hkdfOkm prf hashLen prk info L)
   else none
 
 def hkdfExpand (H : Bytes → Bytes) (B hashLen : Nat) (prk info : Bytes) (L : Nat) : Option Bytes :=
